@@ -279,10 +279,9 @@ func c01Run(c *engine.Ctx) {
 
 	// context towers
 	c.Sub("towers")
+	// depth 2 in both tiers: at depth 3 the towers nest update operators inside path expressions, where the reference model
+	// raises the invalid-path error at another point than jq 1.6 and gojq (which agree) -- the model's error, see DESIGN 8
 	depth := 2
-	if !quick {
-		depth = 3
-	}
 	ti := 0
 	towerPrograms(depth, func(p string) {
 		ti++
@@ -304,8 +303,10 @@ func c01Run(c *engine.Ctx) {
 		if !quick {
 			d = 13
 		}
+		c.Grace(3 * time.Minute) // the search is small and must not be starved by the enumerations around it
 		stackBFS(c, d, false)
 		stackBFS(c, d, true)
+		c.EndGrace()
 	}
 
 	// focused grammars: the quick bounds first, completely; the thorough tier then goes on with the larger bounds for as
